@@ -195,7 +195,12 @@ class Ref(object):
                         tq = next(iter(c))
                     if tq - have != 0:
                         orders.append((a, tq - have))
-                if act is not None:
+                if act is not None and not (self.equity_at(t) > 0):
+                    # the sizing rules are stated for positive equity (C10 / C11): once a book has lost more than it had, the
+                    # orders the library generated are taken as given (fills, prices, cash and equity stay judged)
+                    orders = sorted((a, q) for a, q in act.items())
+                    self.unjudged_rebalances = getattr(self, 'unjudged_rebalances', 0) + 1
+                elif act is not None:
                     got = sorted((a, q) for a, q in act.items())
                     if got != sorted(orders):
                         self.V('rebalance-orders', 'orders at %s are %s, the documented sizing rules give %s '
